@@ -49,3 +49,74 @@ package chans
 //@   ensures covered(out, old(chns(out)), src, idx, 0, in0, old(chpos(in0)), w0) && covered(out, old(chns(out)), src, idx, 1, in1, old(chpos(in1)), w1)
 //@   ensures ordered(in0, old(chpos(in0)), w0) && ordered(in1, old(chpos(in1)), w1)
 //@   ensures forall j int {chsent(out)[j]} :: 0 <= j && j < old(chns(out)) ==> chsent(out)[j] == old(chsent(out))[j]
+
+//@ func merge3
+//@   props C12
+//@   requires out != nil && inOK(in0) && inOK(in1) && inOK(in2) && in0 != in1 && in0 != in2 && in1 != in2 && out != in0 && out != in1 && out != in2 && !chclosed(out)
+//@   modifies chpos(in0), chpos(in1), chpos(in2), chsent(out), chns(out)
+//@   ghostinit src := lambda j int :: -1
+//@   ghostinit idx := lambda j int :: 0
+//@   ghostinit w0 := lambda j int :: 0
+//@   ghostinit w1 := lambda j int :: 0
+//@   ghostinit w2 := lambda j int :: 0
+//@   after call send[0]: ghost src := store(src, chns(out) - 1, 0)
+//@   after call send[0]: ghost idx := store(idx, chns(out) - 1, chpos(old(in0)) - 1)
+//@   after call send[0]: ghost w0 := store(w0, chpos(old(in0)) - 1, chns(out) - 1)
+//@   after call send[1]: ghost src := store(src, chns(out) - 1, 1)
+//@   after call send[1]: ghost idx := store(idx, chns(out) - 1, chpos(old(in1)) - 1)
+//@   after call send[1]: ghost w1 := store(w1, chpos(old(in1)) - 1, chns(out) - 1)
+//@   after call send[2]: ghost src := store(src, chns(out) - 1, 2)
+//@   after call send[2]: ghost idx := store(idx, chns(out) - 1, chpos(old(in2)) - 1)
+//@   after call send[2]: ghost w2 := store(w2, chpos(old(in2)) - 1, chns(out) - 1)
+//@   loop 0: invariant nDone == (in0 == nil ? 1 : 0) + (in1 == nil ? 1 : 0) + (in2 == nil ? 1 : 0) && nDone < 3 && !chclosed(out)
+//@   loop 0: invariant (in0 == nil ==> consumed(old(in0))) && (in0 != nil ==> in0 == old(in0)) && inOK(old(in0)) && old(chpos(in0)) <= chpos(old(in0))
+//@   loop 0: invariant (in1 == nil ==> consumed(old(in1))) && (in1 != nil ==> in1 == old(in1)) && inOK(old(in1)) && old(chpos(in1)) <= chpos(old(in1))
+//@   loop 0: invariant (in2 == nil ==> consumed(old(in2))) && (in2 != nil ==> in2 == old(in2)) && inOK(old(in2)) && old(chpos(in2)) <= chpos(old(in2))
+//@   loop 0: invariant chns(out) == old(chns(out)) + (chpos(old(in0)) - old(chpos(in0))) + (chpos(old(in1)) - old(chpos(in1))) + (chpos(old(in2)) - old(chpos(in2)))
+//@   loop 0: invariant forall j int {src[j]} :: old(chns(out)) <= j && j < chns(out) ==> src[j] == 0 || src[j] == 1 || src[j] == 2
+//@   loop 0: invariant tagged(out, old(chns(out)), chns(out), src, idx, 0, old(in0), w0) && covered(out, old(chns(out)), src, idx, 0, old(in0), old(chpos(in0)), w0) && ordered(old(in0), old(chpos(in0)), w0)
+//@   loop 0: invariant tagged(out, old(chns(out)), chns(out), src, idx, 1, old(in1), w1) && covered(out, old(chns(out)), src, idx, 1, old(in1), old(chpos(in1)), w1) && ordered(old(in1), old(chpos(in1)), w1)
+//@   loop 0: invariant tagged(out, old(chns(out)), chns(out), src, idx, 2, old(in2), w2) && covered(out, old(chns(out)), src, idx, 2, old(in2), old(chpos(in2)), w2) && ordered(old(in2), old(chpos(in2)), w2)
+//@   loop 0: invariant forall j int {chsent(out)[j]} :: 0 <= j && j < old(chns(out)) ==> chsent(out)[j] == old(chsent(out))[j]
+//@   ensures consumed(in0) && consumed(in1) && consumed(in2)
+//@   ensures chns(out) == old(chns(out)) + (chn(in0) - old(chpos(in0))) + (chn(in1) - old(chpos(in1))) + (chn(in2) - old(chpos(in2)))
+//@   ensures forall j int {src[j]} :: old(chns(out)) <= j && j < chns(out) ==> src[j] == 0 || src[j] == 1 || src[j] == 2
+//@   ensures tagged(out, old(chns(out)), chns(out), src, idx, 0, in0, w0) && covered(out, old(chns(out)), src, idx, 0, in0, old(chpos(in0)), w0) && ordered(in0, old(chpos(in0)), w0)
+//@   ensures tagged(out, old(chns(out)), chns(out), src, idx, 1, in1, w1) && covered(out, old(chns(out)), src, idx, 1, in1, old(chpos(in1)), w1) && ordered(in1, old(chpos(in1)), w1)
+//@   ensures tagged(out, old(chns(out)), chns(out), src, idx, 2, in2, w2) && covered(out, old(chns(out)), src, idx, 2, in2, old(chpos(in2)), w2) && ordered(in2, old(chpos(in2)), w2)
+//@   ensures forall j int {chsent(out)[j]} :: 0 <= j && j < old(chns(out)) ==> chsent(out)[j] == old(chsent(out))[j]
+
+// Merge: the arities 1, 2 and 3 are proved (arity 1 directly, 2 and 3 through merge2/merge3); the
+// reflect-based path for other arities is cut off by an explicit, reported assumption.
+//@ func Merge
+//@   props C12
+//@   requires out != nil && !chclosed(out) && 1 <= len(in) && len(in) <= 3
+//@   requires forall a int {in[a]} :: 0 <= a && a < len(in) ==> inOK(in[a]) && in[a] != out
+//@   requires forall a int, b int {in[a], in[b]} :: 0 <= a && a < b && b < len(in) ==> in[a] != in[b]
+//@   modifies all(chpos(in[0])), chsent(out), chns(out)
+//@   before call Map[0]: assume false
+//@   loop 0: invariant inOK(in[0]) && old(chpos(in[0])) <= chpos(in[0]) && !chclosed(out) && chns(out) == old(chns(out)) + chpos(in[0]) - old(chpos(in[0]))
+//@   loop 0: invariant forall i int {chsent(out)[i]} :: 0 <= i && i < chpos(in[0]) - old(chpos(in[0])) ==> chsent(out)[old(chns(out)) + i] == chseq(in[0])[old(chpos(in[0])) + i]
+//@   loop 0: invariant forall j int {chsent(out)[j]} :: 0 <= j && j < old(chns(out)) ==> chsent(out)[j] == old(chsent(out))[j]
+//@   ensures forall a int {in[a]} :: 0 <= a && a < len(in) ==> consumed(in[a])
+//@   ensures len(in) == 1 ==> chns(out) == old(chns(out)) + chn(in[0]) - old(chpos(in[0]))
+//@       && (forall i int {chsent(out)[i]} :: 0 <= i && i < chn(in[0]) - old(chpos(in[0])) ==> chsent(out)[old(chns(out)) + i] == chseq(in[0])[old(chpos(in[0])) + i])
+//@   ensures len(in) == 2 ==> chns(out) == old(chns(out)) + (chn(in[0]) - old(chpos(in[0]))) + (chn(in[1]) - old(chpos(in[1])))
+//@   ensures len(in) == 3 ==> chns(out) == old(chns(out)) + (chn(in[0]) - old(chpos(in[0]))) + (chn(in[1]) - old(chpos(in[1]))) + (chn(in[2]) - old(chpos(in[2])))
+//@   ensures forall j int {chsent(out)[j]} :: 0 <= j && j < old(chns(out)) ==> chsent(out)[j] == old(chsent(out))[j]
+
+//@ func Replicate
+//@   props C12
+//@   requires inOK(src)
+//@   requires forall a int {dsts[a]} :: 0 <= a && a < len(dsts) ==> dsts[a] != nil && dsts[a] != src && !chclosed(dsts[a])
+//@   requires forall a int, b int {dsts[a], dsts[b]} :: 0 <= a && a < b && b < len(dsts) ==> dsts[a] != dsts[b]
+//@   modifies chpos(src), all(chsent(dsts[0])), all(chns(dsts[0]))
+//@   loop 0: invariant inOK(src) && old(chpos(src)) <= chpos(src)
+//@   loop 0: invariant forall a int {dsts[a]} :: 0 <= a && a < len(dsts) ==> !chclosed(dsts[a]) && chns(dsts[a]) == old(chns(dsts[a])) + chpos(src) - old(chpos(src))
+//@   loop 0: invariant forall a int, i int {dsts[a], chseq(src)[i]} :: 0 <= a && a < len(dsts) && old(chpos(src)) <= i && i < chpos(src) ==> chsent(dsts[a])[old(chns(dsts[a])) + i - old(chpos(src))] == chseq(src)[i]
+//@   loop 1: invariant inOK(src) && old(chpos(src)) < chpos(src) && item == chseq(src)[chpos(src) - 1]
+//@   loop 1: invariant forall a int {dsts[a]} :: 0 <= a && a < len(dsts) ==> !chclosed(dsts[a]) && chns(dsts[a]) == old(chns(dsts[a])) + chpos(src) - old(chpos(src)) - (a < idx1 ? 0 : 1)
+//@   loop 1: invariant forall a int, i int {dsts[a], chseq(src)[i]} :: 0 <= a && a < len(dsts) && old(chpos(src)) <= i && i < chpos(src) - (a < idx1 ? 0 : 1) ==> chsent(dsts[a])[old(chns(dsts[a])) + i - old(chpos(src))] == chseq(src)[i]
+//@   ensures consumed(src)
+//@   ensures forall a int {dsts[a]} :: 0 <= a && a < len(dsts) ==> chns(dsts[a]) == old(chns(dsts[a])) + chn(src) - old(chpos(src))
+//@   ensures forall a int, i int {dsts[a], chseq(src)[i]} :: 0 <= a && a < len(dsts) && old(chpos(src)) <= i && i < chn(src) ==> chsent(dsts[a])[old(chns(dsts[a])) + i - old(chpos(src))] == chseq(src)[i]
